@@ -10,6 +10,7 @@ mid-iteration, on all versions.
 Not modelled: the Go heap beyond addresses (slice capacity, big.Int internals).
 -/
 import Sqroot.Model.Heap
+import Sqroot.Proofs.PosHeap
 import Sqroot.Gen.V1
 import Sqroot.Gen.V2
 import Sqroot.Gen.V3
@@ -46,6 +47,21 @@ theorem arg_mode_table_covers :
 theorem shared_constants_never_mutated :
     Gen.V1.bigConstantsMutated = [] ∧ Gen.V2.bigConstantsMutated = [] ∧ Gen.V3.bigConstantsMutated = [] :=
   ⟨rfl, rfl, rfl⟩
+
+/-- values handed out are not altered by later use of the object they came from: Positions built
+earlier vs. later builder use, on the slice/heap model; the two source facts it rests on
+(`Build` drops the slice header, the sorted-path result starts from nil) are regenerated -/
+theorem handed_out_positions_stable (pre post : List HCall) :
+    let r1 := runHCalls pre ⟨[]⟩ {} []
+    let built := r1.2.1.build r1.1
+    let r2 := runHCalls post built.1 built.2.2 []
+    r2.1.read built.2.1 = built.1.read built.2.1 :=
+  Sqroot.Proofs.build_isolated pre post
+
+theorem build_reset_as_modelled :
+    Gen.V1.buildFullReset = true ∧ Gen.V2.buildFullReset = true ∧ Gen.V3.buildFullReset = true ∧
+    Gen.V1.buildResultFresh = true ∧ Gen.V2.buildResultFresh = true ∧ Gen.V3.buildResultFresh = true :=
+  ⟨rfl, rfl, rfl, rfl, rfl, rfl⟩
 
 /-- a parameter in mode "read": the call leaves the caller's store unchanged … -/
 theorem read_mode_does_not_modify {α : Type} (damage : α → α) (st : Store α) (a : Nat) :
